@@ -103,14 +103,16 @@ Lemma every_send_has_receiver_fid :
                             (gm_sends m)) spec_methods = true.
 Proof. vm_compute. reflexivity. Qed.
 
-(** fid allocator discipline (used by C10): Get is always followed by Put on the error path of the binding
-    request; Put(c.fid) happens only in Close and Remove, after the exchange succeeded *)
+(** fid allocator discipline (used by C10): Get is always followed, on the error path of the binding
+    request, by releaseFID (which puts the fid back only after Rlerror); no other method gives a new fid back;
+    Put(c.fid) happens only in Close and Remove, after the exchange succeeded *)
 Lemma fid_sites :
   map gm_name (filter gm_fid_get spec_methods) = ["Attach"; "Walk"; "WalkGetAttr"] /\
-  forallb (fun m => forallb gs_put_on_err (gm_sends m)) (filter gm_fid_get spec_methods) = true /\
-  forallb (fun m => negb (existsb gs_put_on_err (gm_sends m))) (filter (fun m => negb (gm_fid_get m)) spec_methods) = true /\
+  forallb (fun m => forallb (fun s => String.eqb (gs_put_on_err s) "refused") (gm_sends m)) (filter gm_fid_get spec_methods) = true /\
+  forallb (fun m => forallb (fun s => String.eqb (gs_put_on_err s) "") (gm_sends m)) (filter (fun m => negb (gm_fid_get m)) spec_methods) = true /\
   map gm_name (filter gm_fid_put_ok spec_methods) = ["Close"; "Remove"] /\
-  forallb (fun m => String.eqb (gm_guard m) "cas") (filter gm_fid_put_ok spec_methods) = true.
+  forallb (fun m => String.eqb (gm_guard m) "cas") (filter gm_fid_put_ok spec_methods) = true /\
+  ClientGen.release_fid_policy = "refused".
 Proof. vm_compute. repeat split. Qed.
 
 (** the values returned are the reply's fields, in the order of the File method's results *)
